@@ -10,7 +10,7 @@ Here: what that rebuilt tree is like, and that a second trip does not change the
 * `touched_iff` — the `prefixFree` corollary: touched = present and emits;
 * `stableS_prS`, `lvl_prS` — `prS e` is a *stable* state, and on stable states `prS` is invisible
   level by level of the breadth-first output;
-* **`roundtrip_sparse_second_flatten_partial`** — under `blankSettled` and `prefixFree` (both needed:
+* **`roundtrip_sparse_second_flat_partial`** — under `blankSettled` and `prefixFree` (both needed:
   `second_trip_needs_blankSettled`, `second_trip_needs_prefixFree` in
   `Proofs/C01SparseSecondWitness.lean`) the flat output of the second trip is that of the first, for
   every well-formed Compound-free schema (SparseDicts of both kinds, Dicts, Lists pruning or not,
@@ -52,7 +52,7 @@ def C01_Sparse_Second_Full : Prop :=
 
 /-- **C01, second round trip, SparseDicts included.**  After one round trip through `flatten` /
     `from_flat`, a second round trip changes nothing in the flattened output. -/
-theorem roundtrip_sparse_second_flatten_partial (env : Env) (sep : Str) (s : Schema) (e : Elem)
+theorem roundtrip_sparse_second_flat_partial (env : Env) (sep : Str) (s : Schema) (e : Elem)
     (hs : SepSafe env sep (Tok s)) (henv : EnvOK env) (hw : wf s = true) (hroot : rootOK s = true)
     (hbs : blankSettled env s = true) (hpf : prefixFree s = true)
     (hcf : compoundFree s = true) (has : arraysScalar s = true) (hok : OkS env s e) :
@@ -84,7 +84,7 @@ example :
         (flatten exEnv01 "_".toList exSecSchema exSecElem))))
     = flatten exEnv01 "_".toList exSecSchema (fromFlat exEnv01 "_".toList exSecSchema
       (flatten exEnv01 "_".toList exSecSchema exSecElem)) :=
-  roundtrip_sparse_second_flatten_partial exEnv01 "_".toList exSecSchema exSecElem exSec_sepSafe
+  roundtrip_sparse_second_flat_partial exEnv01 "_".toList exSecSchema exSecElem exSec_sepSafe
     exSec_envOK exSec_wf exSec_rootOK exSec_blankSettled exSec_prefixFree (by decide) (by decide) exSec_ok
 
 example : prS exEnv01 "_".toList false exSecSchema exSecElem ≠ exSecElem := exSec_trip1_changes
